@@ -81,7 +81,14 @@ def check_round(ctx, iso3, options, k, cap, title, interp, case):
             ctx.fail("tie-breaking-solves-degrade-the-optimum",
                      "%s round %d: first-stage optimum %.9g, headline %.9g (%.3g relative)" % (iso3, k + 1, obj, head, gap), case)
         if gap < -1e-4:
+            # the later solves found more than the first stage reported as its optimum: that is the recorded CBC finding of C02 only if
+            # the headline is still attainable - the independent optimum decides
+            from vlib.ref import ref_lp
+            ref, status, _, _ = ref_lp.solve_humans(cap["consts"], cap["tc"])
             ctx.event("headline_above_first_stage_optimum(CBC finding of C02)")
+            if ref is not None and head > ref * (1 + 1e-4) + 1e-9:
+                ctx.fail("headline-above-the-largest-attainable-value",
+                         "%s round %d: headline %.9g, first-stage optimum %.9g, independent optimum %.9g" % (iso3, k + 1, head, obj, ref), case)
     # the table written to disk
     path = os.path.join(workspace.scratch(), "results", title + "_ykcals.csv")
     if not os.path.exists(path):
